@@ -33,6 +33,7 @@ type thread struct {
 	scriptIdx    int
 	scriptOff    int
 	lastCodeSep  int
+	codeSepSeen  bool // an OP_CODESEPARATOR was executed in the current script (it may sit at index 0)
 
 	tx         *bt.Tx
 	inputIdx   int
@@ -431,7 +432,7 @@ func (t *thread) Step() (bool, error) {
 			if t.scriptIdx < len(t.scripts) && t.scriptOff >= len(t.scripts[t.scriptIdx]) {
 				t.scriptIdx++
 			}
-			t.lastCodeSep = 0
+			t.lastCodeSep, t.codeSepSeen = 0, false
 			return t.scriptIdx >= len(t.scripts), nil
 		}
 		return true, err
@@ -495,7 +496,7 @@ func (t *thread) Step() (bool, error) {
 		t.scriptIdx++
 	}
 
-	t.lastCodeSep = 0
+	t.lastCodeSep, t.codeSepSeen = 0, false
 	if t.scriptIdx >= len(t.scripts) {
 		return true, nil
 	}
@@ -518,7 +519,7 @@ func (t *thread) SetStack(data [][]byte) {
 // subScript returns the script since the last OP_CODESEPARATOR.
 func (t *thread) subScript() ParsedScript {
 	skip := 0
-	if t.lastCodeSep > 0 {
+	if t.codeSepSeen || t.lastCodeSep > 0 {
 		skip = t.lastCodeSep + 1 // +1 to skip the opcode separator itself
 	}
 	return t.scripts[t.scriptIdx][skip:]
